@@ -632,7 +632,9 @@ impl<'a> Model<'a> {
                     None => return Err(Silent("map range whose key order was not learnt")),
                 }
             }
-            // failing or non-list range: a failure, class left open
+            // a range that fails makes the macro fail the same way (an absent range stays
+            // absent); a range that is no list: a failure, class left open
+            MO::Fail(cs) if !cs.is_empty() => return Ok(MO::Fail(cs)),
             _ => return Ok(MO::Fail(vec![])),
         };
         if elems.len() > 32 {
